@@ -213,7 +213,8 @@ func c05Struct(c *Ctx) {
 		n++
 		r.Add("STRUCT.effect", name, "has error returns", p.Position(fn.Pos()), len(errBlocks) >= 1, "")
 	}
-	r.Floor("C05 effect rule instances", n, 6)
+	n += delOrderRule(c)
+	r.Floor("C05 effect rule instances", n, 7)
 }
 
 // c05Hooks: validation dominance with range entailment at every insertion into h.Extensions.
@@ -267,3 +268,47 @@ func c05Hooks(c *Ctx) *bounds.Hooks {
 }
 
 var _ = fmt.Sprintf
+
+// delOrderRule: DelExtension removes element i by shifting the tail down:
+// h.Extensions = append(h.Extensions[:i], h.Extensions[i+1:]...), which keeps first-insertion order.
+func delOrderRule(c *Ctx) int {
+	p, r := c.Prog, c.R
+	fn := p.Func("rtp.(*Header).DelExtension")
+	if fn == nil {
+		r.Fatalf("anchor DelExtension missing")
+		return 0
+	}
+	ok := false
+	nStores := 0
+	for _, b := range fn.Blocks {
+		for _, in := range b.Instrs {
+			st, isSt := in.(*ssa.Store)
+			if !isSt {
+				continue
+			}
+			root, path := core.AddrKey(st.Addr)
+			if root != ssa.Value(fn.Params[0]) || path != ".Extensions" {
+				continue
+			}
+			nStores++
+			call, isCall := st.Val.(*ssa.Call)
+			if !isCall || core.BuiltinName(call) != "append" || len(call.Call.Args) != 2 {
+				continue
+			}
+			head, ok1 := call.Call.Args[0].(*ssa.Slice)
+			tail, ok2 := call.Call.Args[1].(*ssa.Slice)
+			if !ok1 || !ok2 || head.Low != nil || head.High == nil || tail.Low == nil || tail.High != nil {
+				continue
+			}
+			// tail.Low = head.High + 1
+			if add, isAdd := tail.Low.(*ssa.BinOp); isAdd && add.Op == token.ADD && add.X == head.High {
+				if k, isC := core.ConstInt(add.Y); isC && k == 1 && loadedField(head.X) == "Extensions" && loadedField(tail.X) == "Extensions" {
+					ok = true
+				}
+			}
+		}
+	}
+	r.Add("STRUCT.order", core.FuncName(fn), "removal shifts the tail down (append(ext[:i], ext[i+1:]...)): insertion order preserved", p.Position(fn.Pos()), ok && nStores == 1,
+		fmt.Sprintf("%d stores to h.Extensions; none has the order-preserving shift form", nStores))
+	return 1
+}
